@@ -594,6 +594,13 @@ func (c *Ctx) dischargeIndex(s *panSite, fnBody ast.Node) string {
 				return why
 			}
 		}
+		// variable index clamped from above and rejected below: `if i >= len(B) { i = len(B)-1 }`
+		// and a terminating `if i < 0 {..}` ahead of the site
+		if id, ok := unparen(idx).(*ast.Ident); ok {
+			if why := c.clampedIndex(s.Node, id, bsrc); why != "" {
+				return why
+			}
+		}
 		// constant index under a length guard
 		if k, ok := c.ConstInt(idx); ok && k >= 0 {
 			if c.minLenAt(s.Node, bsrc, fnBody) >= k+1 {
@@ -1005,6 +1012,82 @@ func (c *Ctx) rangeCheckedBefore(n ast.Node, id *ast.Ident, base string, stop as
 		if p == stop {
 			break
 		}
+	}
+	return ""
+}
+
+// clampedIndex: in the statement list that holds the site, ahead of it and with no other
+// assignment to the index variable in between: `if i >= len(B) { i = len(B) - 1 }` and a
+// terminating `if i < 0 { .. }` (in either order, the clamp first or second: after both,
+// 0 <= i < len(B) whenever the site is reached).
+func (c *Ctx) clampedIndex(n ast.Node, id *ast.Ident, base string) string {
+	o := c.Obj(id)
+	var stmt ast.Node = n
+	for p := c.Parent(n); p != nil; stmt, p = p, c.Parent(p) {
+		var list []ast.Stmt
+		switch b := p.(type) {
+		case *ast.BlockStmt:
+			list = b.List
+		case *ast.CaseClause:
+			list = b.Body
+		default:
+			continue
+		}
+		clamp, low := token.NoPos, token.NoPos
+		for _, st := range list {
+			if st.Pos() >= stmt.Pos() {
+				break
+			}
+			if ifs, ok := st.(*ast.IfStmt); ok && ifs.Init == nil && ifs.Else == nil {
+				if be, ok := unparen(ifs.Cond).(*ast.BinaryExpr); ok {
+					if xid, ok := unparen(be.X).(*ast.Ident); ok && c.Obj(xid) == o {
+						// i >= len(B) { i = len(B) - 1 }
+						if (be.Op == token.GEQ || be.Op == token.GTR) && nosp(c.Src(be.Y)) == "len("+base+")" && len(ifs.Body.List) == 1 {
+							if as, ok := ifs.Body.List[0].(*ast.AssignStmt); ok && as.Tok == token.ASSIGN && len(as.Lhs) == 1 {
+								if lid, ok := as.Lhs[0].(*ast.Ident); ok && c.Obj(lid) == o && nosp(c.Src(as.Rhs[0])) == "len("+base+")-1" {
+									clamp = st.Pos()
+									continue
+								}
+							}
+						}
+						// i < 0 { return / panic / continue / break }
+						if be.Op == token.LSS && terminating(ifs.Body) {
+							if k, ok := c.ConstInt(be.Y); ok && k == 0 {
+								low = st.Pos()
+								continue
+							}
+						}
+					}
+				}
+			}
+			// any other write to i (or to the base) invalidates what was established
+			bad := false
+			ast.Inspect(st, func(m ast.Node) bool {
+				switch x := m.(type) {
+				case *ast.AssignStmt:
+					for _, l := range x.Lhs {
+						if lid, ok := unparen(l).(*ast.Ident); ok && c.Obj(lid) == o && c.Info.Defs[lid] == nil {
+							bad = true
+						}
+						if nosp(c.Src(l)) == base {
+							bad = true
+						}
+					}
+				case *ast.IncDecStmt:
+					if lid, ok := unparen(x.X).(*ast.Ident); ok && c.Obj(lid) == o {
+						bad = true
+					}
+				}
+				return true
+			})
+			if bad {
+				clamp, low = token.NoPos, token.NoPos
+			}
+		}
+		if clamp.IsValid() && low.IsValid() && clamp < low {
+			return "index clamped to len-1 and rejected when negative ahead of the access"
+		}
+		return ""
 	}
 	return ""
 }
